@@ -377,3 +377,46 @@ def run(tier: str, budget: Budget, rnd, prop: str) -> StreamResult:
             if len(res.disagreements) >= 20:
                 break
     return res
+
+
+def replay(prop: str, payload: dict):
+    """re-run one recorded (game, knowledge, computer, stale pre-fill) case on the real computers and apply the oracle"""
+    inp = payload["input"]
+    n = inp["n"]
+    v = [Fraction(x) for x in inp["v"]]
+    K = inp["K"]
+    comp = inp.get("computer", "sac")
+    stale = None if not inp.get("stale") else [[Fraction(x) for x in s_] for s_ in inp["stale"]]
+    if "reveal" in inp:
+        a = real_bounds(n, v, K, comp)
+        b = real_bounds(n, v, sorted(set(K) | {inp["reveal"]}), comp)
+        wid = (not isinstance(a, str)) and (not isinstance(b, str)) and any(b[1][x] < a[1][x] or b[2][x] > a[2][x] for x in range(2 ** n))
+        return wid, f"bounds before reveal: {a}\nbounds after revealing {inp['reveal']}: {b}\nwidened: {wid}"
+    out = real_bounds(n, v, K, comp, stale)
+    if isinstance(out, str):
+        return True, f"{comp} raised {out}"
+    Kn, L, U = out
+    msgs = [f"computer {comp}: L={rlist(L)}", f"U={rlist(U)}"]
+    bad = False
+    if prop in ("C01", "C04"):
+        for c in range(2 ** n):
+            if not (L[c] <= v[c] <= U[c]):
+                bad = True
+                msgs.append(f"true value {rs(v[c])} of coalition {c} outside [{rs(L[c])}, {rs(U[c])}]")
+    if prop == "C02" and n <= 5:
+        tl, tu = tight_bounds(n, v, K)
+        for c in range(2 ** n):
+            if L[c] != tl[c] or U[c] != tu[c]:
+                bad = True
+                msgs.append(f"coalition {c}: computed [{rs(L[c])},{rs(U[c])}] exact [{rs(tl[c])},{rs(tu[c])}]")
+    if prop == "C03":
+        o2 = real_bounds(n, v, K, "sac" if comp == "sa" else "sa", stale)
+        if isinstance(o2, str) or o2[1] != L or o2[2] != U:
+            bad = True
+            msgs.append(f"other computer: {o2}")
+    if prop == "C08":
+        o2 = real_bounds(n, v, K, comp, None)
+        if isinstance(o2, str) or o2[1] != L or o2[2] != U:
+            bad = True
+            msgs.append(f"without the stale pre-fill: {o2}")
+    return bad, "\n".join(msgs)
